@@ -19,8 +19,8 @@ import (
 // Framing is one case of sub-check (a): messages of generated sizes pushed through a stream whose
 // writes and reads are segmented by a generated plan, optionally with a fault at octet k.
 type Framing struct {
-	Dir  string // client-read | client-write | server
-	API  string // client-read: ReadMsg | ReadMsgHeader | ReadMsgHeaderHdr | Read | ReadShortBuf
+	Dir string // client-read | client-write | server
+	API string // client-read: ReadMsg | ReadMsgHeader | ReadMsgHeaderHdr | Read | ReadShortBuf
 	//             client-write: Write | WriteMsg         server: Write | WriteMsg (what the handler uses to reply)
 	Sizes      []int  // message sizes in octets (client-write and replies may exceed 65535)
 	Seeds      []byte // filler seed per message
